@@ -39,6 +39,10 @@ def specInit (init : List Nat) : SpecSt :=
 
 def okB (r : Res) : Bool := r == .ok
 
+/-- the pins logged again while a peer is being removed -/
+def repinFold (calls : List Call) (m : PinMap) : PinMap :=
+  calls.foldl (fun m c => match c with | .logPin q => PinMap.put q.stored m | _ => m) m
+
 /-- bookkeeping: how a step with its reported outcome changes what is expected -/
 def advance (s : SpecSt) : Op → SpecSt
   | .start j => { s with running := insertPeer j s.running }
@@ -55,7 +59,7 @@ def advance (s : SpecSt) : Op → SpecSt
   | .join j _ res _ =>
     if okB res then { s with members := insertPeer j s.members, running := insertPeer j s.running, departed := erasePeer j s.departed } else s
   | .peerRm _ p res calls =>
-    let pinset' := calls.foldl (fun m c => match c with | .logPin q => PinMap.put q.stored m | _ => m) s.pinset
+    let pinset' := repinFold calls s.pinset
     if okB res then
       { s with pinset := pinset', members := erasePeer p s.members,
                running := if s.running.contains p then erasePeer p s.running else s.running,
